@@ -161,6 +161,21 @@ func unitsAll(prop string, mon Monitor) func(tier string) []runner.Unit {
 				RunOne(u, p, pats, explore.Bound{}, mon)
 			}})
 		}
+		// idle first: the connection is opened, the readers wait, nobody writes for a while
+		for mi, mode := range []string{"socks5-request-first", "no-wait", "raw"} {
+			for i, idle := range []time.Duration{20 * time.Second, 45 * time.Second, 61 * time.Second, 90 * time.Second, 110 * time.Second, 5 * time.Minute} {
+				if idle > 2*time.Minute && (tier != "thorough" || prop != "C02") {
+					continue // minutes of virtual time on the UDP transport are millions of steps: thorough tier only
+				}
+				p := Params{CW: []int{900, 2000}, SW: []int{1500, 700}, RB: 4096, Raw: mode == "raw", NoWait: mode == "no-wait", IdleFirst: idle}
+				p.Prop, p.UDP, p.MTU, p.Latency, p.NSess, p.Seed = prop, true, 1400, 5*time.Millisecond, 1, int64(650+10*mi+i)
+				p.CTP, p.STP = "nil", "nil"
+				p.Horizon = idle + 60*time.Second
+				us = append(us, runner.Unit{Name: fmt.Sprintf("idle-before-first-write-%s-%v", mode, idle), Cost: 2, Run: func(u *runner.U) {
+					RunOne(u, p, pats, explore.Bound{}, mon)
+				}})
+			}
+		}
 		// long one-way transfers: one end only receives acknowledgements for more than a minute
 		// (longer than every idle timeout of the stack), no fault
 		us = append(us, runner.Unit{Name: "long-one-way", Cost: 6, Run: func(u *runner.U) {
